@@ -595,6 +595,10 @@ func (db *SpecDB) LoadSpecFile(path, pkgPath string) error {
 					cc.Ensures = append(cc.Ensures, c)
 				case strings.HasPrefix(body, "modifies"):
 					rest := strings.TrimSpace(body[len("modifies"):])
+					if rest == "extern" {
+						cc.HavocExt = true
+						break
+					}
 					if rest == "*" {
 						cc.ModAll = true
 					} else {
